@@ -1297,7 +1297,7 @@ func runTrace(c *Ctx, im *Impl, cf *CaseFile, rd *round, idx int) {
 
 func runC14(c *Ctx) {
 	im := NewImpl("C14", c.Seed, c.Tier)
-	im.Rule = "trace rounds: 1-3 OS processes x 1-3 thread-locked goroutines run random programs of 2-6 UpdateFullStatus/Load/Save calls (two thirds of the rounds with Saves) under one strace; non-trivial = at least 2 processes and at least one flock call had to wait. stress rounds: 2-4 processes x 2-4 goroutines x 10-60 operations (about 30% Loads, some goroutines 90%; in half of the rounds 60% of the goroutines also Save what they last read or wrote, 10-20% of their operations); non-trivial = lock ownership alternates between OS processes in at least 10% of consecutive updates and Loads observed at least 3 distinct intermediate values of the shared counter. every fourth stress round is followed by a round with the in-process stdout path: one goroutine is the unit's STDoutWriter (Write -> saveStdoutSize) against 3-8 updating/loading goroutines in 2-3 processes; non-trivial = the size changed between consecutive increments at least 3 times. unit-object rounds: 2-3 processes each own ONE BaseWorkUnit for the whole round; a sequential script of 9-25 UpdateBasicStatus / UpdateFullStatus / Save / Load calls on them built from the patterns 'p sets v, q sets w, p sets v again' and 'p loads, q sets w, p saves' , two thirds of the rounds with 2-6 background goroutines incrementing counters in ExtraData through their own unit objects; non-trivial = at least 3 scripted writes and (a Save round or at least 10 background increments). shared-object rounds: one BaseWorkUnit updated by one goroutine (UpdateBasicStatus / UpdateFullStatus of a matching triple) and read by 3-4 others through Status / UnredactedStatus; non-trivial = at least one read per ten updates. launch race on the real daemon: bursts of very short commands (/bin/true, /bin/false, echo, echo+exit 3) on a loaded scheduler, a few of them with the daemon's flock calls delayed by 350 ms (strace on the daemon's threads only); non-trivial = the runner wrote before the daemon had recorded its pid. Half of the goroutines keep one StatusFileData for their whole program, 60% of the rounds start from an existing record, the others from no file."
+	im.Rule = "trace rounds: 1-3 OS processes x 1-3 thread-locked goroutines run random programs of 2-6 UpdateFullStatus/Load/Save calls (two thirds of the rounds with Saves) under one strace; non-trivial = at least 2 processes and at least one flock call had to wait. stress rounds: 2-4 processes x 2-4 goroutines x 10-60 operations (about 30% Loads, some goroutines 90%; in half of the rounds 60% of the goroutines also Save what they last read or wrote, 10-20% of their operations); non-trivial = lock ownership alternates between OS processes in at least 10% of consecutive updates and Loads observed at least 3 distinct intermediate values of the shared counter. every fourth stress round is followed by a round with the in-process stdout path: one goroutine is the unit's STDoutWriter (Write -> saveStdoutSize) against 3-8 updating/loading goroutines in 2-3 processes; non-trivial = the size changed between consecutive increments at least 3 times. unit-object rounds: 2-3 processes each own ONE BaseWorkUnit for the whole round; a sequential script of 9-25 UpdateBasicStatus / UpdateFullStatus / Save / Load calls on them built from the patterns 'p sets v, q sets w, p sets v again' and 'p loads, q sets w, p saves' , two thirds of the rounds with 2-6 background goroutines incrementing counters in ExtraData through their own unit objects; non-trivial = at least 3 scripted writes and (a Save round or at least 10 background increments). shared-object rounds: one BaseWorkUnit updated by one goroutine (UpdateBasicStatus / UpdateFullStatus of a matching triple) and read by 3-4 others through Status / UnredactedStatus; non-trivial = at least one read per ten updates. load-race rounds: ONE long-lived BaseWorkUnit (3 objects x 50 rounds, thorough 12 x 250); in two thirds of the rounds the harness holds the flock on status.lock for 3-25 ms while, in a random order with gaps of 0-4 ms, 1-3 goroutines call Load() (1-2 times) and three goroutines update the SAME object 0-3 times each (UpdateBasicStatus(n) owning State/Detail, UpdateFullStatus StdoutSize++, UpdateFullStatus ExtraData.Pid++, at least one update per round), in 40% of the rounds with an outside writer (own StatusFileData, ExtraData.Params = its count) as the runner; in the other rounds the same calls race without the lock being held. After every call has returned: the stored record holds every update, the object's in-memory record equals it in every field written through the object (and is between the round's start and the stored value in the outside writer's field), an updater asking the object right after its own update is told its own value, and a Load on its own then makes the object equal to the stored record; non-trivial = at least a third of the rounds had Loads and updates of one object queued behind the held lock and in at least a quarter a Load returned after an update had. launch race on the real daemon: bursts of very short commands (/bin/true, /bin/false, echo, echo+exit 3) on a loaded scheduler, a few of them with the daemon's flock calls delayed by 350 ms (strace on the daemon's threads only); non-trivial = the runner wrote before the daemon had recorded its pid. Half of the goroutines keep one StatusFileData for their whole program, 60% of the rounds start from an existing record, the others from no file."
 	cf := &CaseFile{Dir: c.Out, Prop: "C14", Imports: []string{"Model.Lock"}, CaseType: "lock_case", CheckFn: "lock_check", PerShard: 40}
 	tmp, err := os.MkdirTemp("", "c14-")
 	Must(err)
@@ -1345,6 +1345,7 @@ func runC14(c *Ctx) {
 	runErrorPaths(c, im, tmp)
 	runLaunchRace(c, im, tmp)
 	runSharedObject(c, im, tmp)
+	runLoadRace(c, im, tmp)
 	nUnits := 6
 	if c.Thorough() {
 		nUnits = 60
